@@ -59,7 +59,7 @@ def ref_eval(ref_stack, value, maximize, calls):
     return go(0)
 
 
-def build(kinds, maximize, feed, counter):
+def build(kinds, maximize, feed, counter, use_cache=False):
     from pyhms.core.problem import EvalCountingProblem, EvalCutoffProblem, FunctionProblem, PrecisionCutoffProblem, StatsGatheringProblem
 
     bounds = np.array([(-1.0, 2.0), (3.0, 4.5)])
@@ -68,7 +68,7 @@ def build(kinds, maximize, feed, counter):
         counter[0] += 1
         return feed[0]
 
-    fp = FunctionProblem(f, bounds=bounds, maximize=maximize)
+    fp = FunctionProblem(f, bounds=bounds, maximize=maximize, **({"use_cache": True} if use_cache else {}))
     p = fp
     objs = []
     for k in reversed(kinds):  # kinds[0] is the outermost
@@ -88,7 +88,7 @@ def build(kinds, maximize, feed, counter):
 PAIRS = [(0.0, 1.0), (1.0, 0.0), (2.0, 2.0), (-1.0, math.inf), (-math.inf, 3.0)]
 
 
-def run_stack(res, kinds, maximize, seqlen, vals, only_seq=None):
+def run_stack(res, kinds, maximize, seqlen, vals, only_seq=None, use_cache=False):
     from pyhms.core.problem import get_function_problem
     from pyhms.stop_conditions import SingularProblemPrecisionReached
 
@@ -98,7 +98,7 @@ def run_stack(res, kinds, maximize, seqlen, vals, only_seq=None):
     for seq in ([only_seq] if only_seq is not None else itertools.product(range(len(vals)), repeat=seqlen)):
         feed = [0.0]
         counter = [0]
-        top, objs, fp, bounds = build(kinds, maximize, feed, counter)
+        top, objs, fp, bounds = build(kinds, maximize, feed, counter, use_cache)
         ref = [RefWrapper(k) for k in kinds]
         rcalls = [0]
         refused = False
@@ -108,6 +108,10 @@ def run_stack(res, kinds, maximize, seqlen, vals, only_seq=None):
         for step, vi in enumerate(seq):
             v = sgn * vals[vi]
             feed[0] = v
+            if use_cache:
+                # a memoising problem: every call of a sequence uses its own genome (no legitimate cache hit), so any
+                # value served from a cache filled by ANOTHER problem object shows up as a wrong returned value
+                x = np.array([0.5 + 0.125 * step, 3.5])
             got = top.evaluate(x)
             want = ref_eval(ref, v, maximize, rcalls)
             if math.isinf(want):
@@ -154,7 +158,7 @@ def run_stack(res, kinds, maximize, seqlen, vals, only_seq=None):
             res.transitions.add(h64((prev_state, vi, st)))
             prev_state = st
             if bad is not None:
-                rep = dict(rep_base, desc={"stack": list(kinds), "maximize": maximize, "values": [sgn * vals[i] for i in seq], "failing_call": step + 1})
+                rep = dict(rep_base, desc={"stack": list(kinds), "maximize": maximize, "values": [sgn * vals[i] for i in seq], "failing_call": step + 1, "use_cache": use_cache})
                 res.add_violation(ID, bad[0], f"stack {'>'.join(kinds)} maximize={maximize} call {step + 1} of values {[sgn * vals[i] for i in seq]}: {bad[1]}", {}, rep)
                 break
         if refused or hits >= 2:
@@ -178,6 +182,9 @@ def units(tier, seed):
         for i in range(0, len(ss), 10):
             us.append({"stacks": ss[i : i + 10], "len": 4, "vals": VALS_MIN + [-math.inf, math.nan]})
             us.append({"stacks": ss[i : i + 10], "len": 5, "vals": [0.0, 0.5, -0.5, 0.75]})
+        s2 = stacks(2)
+        for i in range(0, len(s2), 14):
+            us.append({"stacks": s2[i : i + 14], "len": 4, "vals": [0.25, 0.5, 0.75, 10.0], "use_cache": True})
     else:
         ss = stacks(3)
         for i in range(0, len(ss), 4):
@@ -193,7 +200,7 @@ def run_unit(unit):
     for kinds in unit["stacks"]:
         kinds = tuple(kinds)
         for mx in (False, True):
-            run_stack(res, kinds, mx, unit["len"], unit["vals"])
+            run_stack(res, kinds, mx, unit["len"], unit["vals"], use_cache=unit.get("use_cache", False))
         res.configs += 1
         res.configs_completed += 1
     res.status["ok"] += res.executions
@@ -217,5 +224,5 @@ def replay(rep):
     for v in base:
         if v not in uniq:
             uniq.append(v)
-    run_stack(res, tuple(d["stack"]), mx, len(base), uniq, only_seq=tuple(uniq.index(v) for v in base))
+    run_stack(res, tuple(d["stack"]), mx, len(base), uniq, only_seq=tuple(uniq.index(v) for v in base), use_cache=d.get("use_cache", False))
     return res.violations
